@@ -618,8 +618,7 @@ Proof.
     destruct (ar_step_ok _ _ _ _ I E1 NE) as (I1 & W1).
     destruct (IH _ _ _ I1 E2 F') as (I2 & W2). split; [exact I2|]. rewrite W2, W1.
     destruct o as [wo|p n]; cbn [wops_of].
-    + rewrite wrun_cons_fst. replace (fst (wrun (a_w a) [wo])) with (fst (wstep (a_w a) wo)); [reflexivity|].
-      cbn [wrun]. destruct (wstep (a_w a) wo) as [w1 y]. reflexivity.
+    + rewrite !wrun_cons_fst. cbn [wrun fst]. reflexivity.
     + reflexivity.
 Qed.
 
@@ -712,4 +711,85 @@ Proof.
   destruct (ar_close all_true a0) as [a1 r] eqn:E1. cbn [fst snd] in *. subst r.
   destruct (ar_close_ok _ _ I E1) as (Fl & Cl & _). rewrite ar_drop_closed by (assumption || reflexivity).
   rewrite Fl, W. reflexivity.
+Qed.
+
+(* under a limit the file left behind is never longer than the limit (so it is not the complete archive) *)
+Theorem fault_file_within_limit_proof : forall partial limit cap ops, Forall buffered_only ops ->
+  let a := fst (ar_run all_true (ar_open (limit_policy partial limit) cap) (map AOp ops)) in
+  lenN (ar_file (fst (main_io all_true a))) <= limit.
+Proof.
+  intros partial limit cap ops F a.
+  destruct (pipeline_state_facts (limit_policy partial limit) cap ops F) as (_ & _ & Sk). fold a in Sk.
+  assert (L0 : sink_lim limit (ar_sink a)) by (rewrite Sk; apply sink_new_lim).
+  pose proof (main_io_pres _ all_true a (sink_lim_pres limit) L0) as (_ & L1 & O1).
+  unfold ar_file. unfold ar_sink, sink_ok in *. lia.
+Qed.
+
+(* ------------------------------------------------------------------ close's first `writer.flush()?` is redundant
+   Switching that one site off (site 3) loses nothing: a failed flush_buf keeps the unwritten bytes in the
+   BufWriter and serialize's final flush has to get them out, or fail.  Every other site is needed
+   (props/C15.v: site_*_needed). *)
+Definition S3 : sites := site_off 3 all_true.
+
+Lemma S3_serialize : forall b w, ar_serialize S3 b w = ar_serialize all_true b w.
+Proof. reflexivity. Qed.
+
+Lemma S3_add_part : forall a sid d m, ar_add_part S3 a sid d m = ar_add_part all_true a sid d m.
+Proof. reflexivity. Qed.
+
+Lemma S3_flush_items : forall its a sid, ar_flush_items S3 a sid its = ar_flush_items all_true a sid its.
+Proof.
+  induction its as [|[d m] r IH]; intros; cbn [ar_flush_items]; [reflexivity|]. rewrite S3_add_part.
+  destruct (ar_add_part all_true a sid d m) as [a' res]. change (p_fb_add S3) with (p_fb_add all_true).
+  destruct (stops (p_fb_add all_true) res); [reflexivity|apply IH].
+Qed.
+
+Lemma S3_flush_groups : forall b a, ar_flush_groups S3 a b = ar_flush_groups all_true a b.
+Proof.
+  induction b as [|[sid its] r IH]; intros; cbn [ar_flush_groups]; [reflexivity|]. rewrite S3_flush_items.
+  destruct (ar_flush_items all_true a sid its) as [a' res]. destruct res as [[]| |]; [apply IH|reflexivity|reflexivity].
+Qed.
+
+Lemma S3_flush_buffers : forall a, ar_flush_buffers S3 a = ar_flush_buffers all_true a.
+Proof. intros. unfold ar_flush_buffers. apply S3_flush_groups. Qed.
+
+Lemma stops_false : forall r, stops false r = false.
+Proof. intros [[]| |]; reflexivity. Qed.
+
+Lemma ar_close_ok3 : forall a a', ar_inv a -> ar_close S3 a = (a', Ok tt) ->
+  ar_file a' = close (a_w a) /\ a_open a' = false /\ a_w a' = a_w a.
+Proof.
+  intros a a' (Op & I & St) H. unfold ar_close in H. rewrite Op in H.
+  change (p_close_flush S3) with false in H. change (p_close_ser S3) with true in H.
+  destruct (bw_flush (a_bw a)) as [b1 r1] eqn:E1. rewrite stops_false in H.
+  unfold bw_flush in E1. destruct (bw_flush_buf_any _ _ _ I E1) as (I1 & St1 & _).
+  rewrite S3_serialize in H.
+  destruct (ar_serialize all_true b1 (a_w a)) as [b2 r2] eqn:E2.
+  destruct (stops true r2) eqn:S2; [discriminate H|]. apply stops_true in S2. subst r2.
+  destruct (ar_serialize_ok _ _ _ I1 E2) as (I2 & Em & St2).
+  injection H as <-. unfold ar_file. cbn [a_bw a_open a_w].
+  assert (Z : fst (bw_flush_buf b2) = b2).
+  { unfold bw_flush_buf. destruct I2 as (L2 & _ & _). rewrite L2, Em. reflexivity. }
+  rewrite Z. split; [|split; reflexivity].
+  unfold bw_stream in St2. rewrite Em, app_nil_r in St2. rewrite St2.
+  fold (bw_stream b1). rewrite St1, St. reflexivity.
+Qed.
+
+Theorem close_flush_redundant_proof : forall pol cap ops, Forall buffered_only ops ->
+  let a := fst (ar_run all_true (ar_open pol cap) (map AOp ops)) in
+  snd (main_io S3 a) = ExitZero ->
+  ar_file (fst (main_io S3 a)) = complete_file ops.
+Proof.
+  intros pol cap ops F a H. destruct (pipeline_state_facts pol cap ops F) as (I & W & _). fold a in I, W.
+  unfold main_io, create_archive_io, finalize_io in *. rewrite S3_flush_buffers in *.
+  change (p_fin_flush S3) with true in *. change (p_fin_close S3) with true in *.
+  change (p_cli_finalize S3) with true in *. change (p_cli_create S3) with true in *.
+  destruct (ar_flush_buffers all_true a) as [a1 r1] eqn:E1.
+  destruct (stops true r1) eqn:S1; [cbn in H; discriminate H|]. apply stops_true in S1. subst r1.
+  destruct (ar_flush_buffers_ok _ _ I E1) as (I1 & P1).
+  destruct (ar_close S3 a1) as [a2 r2] eqn:E2.
+  destruct (stops true r2) eqn:S2; [cbn in H; discriminate H|]. apply stops_true in S2. subst r2.
+  destruct (ar_close_ok3 _ _ I1 E2) as (Fl & Cl & _).
+  cbn [stops fst snd]. rewrite ar_drop_closed by (assumption || reflexivity).
+  rewrite Fl. unfold complete_file. rewrite <- W, P1. reflexivity.
 Qed.
